@@ -51,7 +51,6 @@ def enum_units(tier, seed):
     L = lambda v: ["lit", v, "x"]
     cases = [
         {"t": "reject", "why": "undefined macro", "rom": "low", "ir": [org, M, {"k": "call", "n": "m_zz", "args": [L(1), L(2)]}]},
-        {"t": "reject", "why": "undefined macro (defined later)", "rom": "low", "ir": [org, {"k": "call", "n": "m_a", "args": [L(1), L(2)]}, M]},
         {"t": "reject", "why": "too few arguments", "rom": "low", "ir": [org, M, {"k": "call", "n": "m_a", "args": [L(1)]}]},
         {"t": "reject", "why": "no arguments", "rom": "low", "ir": [org, M, {"k": "call", "n": "m_a", "args": []}]},
         # too few arguments is an error whatever the body does with the missing parameter and whatever the call site defines
@@ -104,6 +103,19 @@ def enum_units(tier, seed):
                                           {"k": "label", "n": "lb_loop"}, {"k": "call", "n": "m_delay", "args": [L(3)]}, {"k": "data", "d": "db", "es": [L(0x88)]},
                                           {"k": "ins", "m": "bne", "shape": ["", None, None], "sfx": "", "e": ["id", "lb_loop"]}, {"k": "data", "d": "dl", "es": [["id", "lb_loop"]]},
                                           {"k": "call", "n": "m_delay", "args": [L(4)]}, {"k": "data", "d": "dl", "es": [["id", "lb_loop"]]}]},
+        # a macro defined again: an application expands the definition that was the last one where it stands (also when the second
+        # definition is written inside a block, a scope or a branch, before / after applications there)
+        {"rom": "low", "files": {}, "ir": [org, {"k": "macro", "n": "m_v", "ps": ["p_vx"], "b": [{"k": "data", "d": "db", "es": [L(0xA1), ["id", "p_vx"]]}]}, {"k": "call", "n": "m_v", "args": [L(1)]},
+                                          {"k": "macro", "n": "m_v", "ps": ["p_vx"], "b": [{"k": "data", "d": "dw", "es": [["id", "p_vx"]]}, {"k": "data", "d": "db", "es": [L(0xA2)]}]}, {"k": "call", "n": "m_v", "args": [L(2)]},
+                                          {"k": "label", "n": "lb_tail"}, {"k": "data", "d": "dl", "es": [["id", "lb_tail"]]}]},
+        {"rom": "low", "files": {}, "ir": [org, {"k": "macro", "n": "m_v", "ps": ["p_vx"], "b": [{"k": "data", "d": "db", "es": [L(0xA1), ["id", "p_vx"]]}]},
+                                          {"k": "scope", "n": "sc_v", "b": [{"k": "call", "n": "m_v", "args": [L(1)]}, {"k": "label", "n": "lb_in"},
+                                                                            {"k": "macro", "n": "m_v", "ps": ["p_vx"], "b": [{"k": "data", "d": "dw", "es": [["id", "p_vx"]]}, {"k": "data", "d": "db", "es": [L(0xA2)]}]},
+                                                                            {"k": "call", "n": "m_v", "args": [L(2)]}]},
+                                          {"k": "call", "n": "m_v", "args": [L(3)]}, {"k": "data", "d": "dl", "es": [["id", "sc_v.lb_in"]]}]},
+        {"rom": "low", "files": {}, "ir": [org, {"k": "macro", "n": "m_v", "ps": [], "b": [{"k": "data", "d": "db", "es": [L(0xA1)]}]},
+                                          {"k": "block", "b": [{"k": "call", "n": "m_v", "args": []}, {"k": "if", "c": L(1), "t": [{"k": "macro", "n": "m_v", "ps": [], "b": [{"k": "data", "d": "db", "es": [L(0xA2), L(0xA3)]}]}], "e": None},
+                                                               {"k": "call", "n": "m_v", "args": []}]}, {"k": "call", "n": "m_v", "args": []}]},
         # a late-resolved parameter passed on to a nested application while a global constant has the parameter's name
         {"rom": "high", "files": {}, "ir": [{"k": "const", "n": "p_ay", "e": L(5), "eager": True}, {"k": "org", "a": 0x500003},
                                            {"k": "macro", "n": "m_a", "ps": ["p_ax", "p_ay"], "b": [
